@@ -355,6 +355,14 @@ theorem facts_shape :
     ∧ flushEveryTime = "bufferedKeys, err := strategy.flush(txn)"
     ∧ resetAfterFlush = ["reset"] := by decide
 
+/-- the strategy's decision procedure statement by statement (what `compactFrom` models): the first version only
+sets the base; a version equal to the base is removed with all its reference keys (and the latest pointer re-pointed
+when it was the newest); otherwise, delete state unchanged, the reference keys of a predicate whose value equals the
+base's are compared with the keys *computed from the base itself* and removed unless identical; the base advances
+exactly when the version stays. -/
+theorem facts_eval_skeleton : Hub.Facts.Compact.skeleton_eval = ["if isFirstVersion {", "set d.prevJsonKey = jsonKey", "set d.prevEntityBytes = entityBytes", "set d.prev = e", "return", "}", "set isDuplicate = false", "server.IsEntityEqual", "if server.IsEntityEqual(d.prevEntityBytes, entityBytes, d.prev, e) {", "set isDuplicate = true", "if isLatestVersion {", "mkLatestKey", "}", "findRefs", "ret-on-err", "} else {", "if e.IsDeleted == d.prev.IsDeleted {", "for {", "reflect.DeepEqual", "if reflect.DeepEqual(d.prev.References[k], stringOrArrayValue) {", "processRefs", "ret-on-err", "processRefs", "ret-on-err", "set identical = false", "if len(refsToDel) == len(refsToDelPrev) {", "set identical = true", "for {", "bytes.Equal", "if !bytes.Equal(ref, refsToDelPrev[i]) {", "set identical = false", "break", "}", "}", "}", "}", "}", "}", "}", "if !isDuplicate {", "set d.prevJsonKey = jsonKey", "set d.prevEntityBytes = entityBytes", "set d.prev = e", "}", "if len(del) > 0 {", "return", "}", "return"] := by
+  set_option maxRecDepth 8000 in decide
+
 -- a partial compaction of 1,2,2,1,1: only the first duplicate was removed before the kill
 example : let a : Ent := ⟨1, false, [], "1"⟩; let b : Ent := ⟨1, false, [], "2"⟩
     Partial [(1, a), (2, b), (3, b), (4, a), (5, a)] [(1, a), (2, b), (4, a), (5, a)] :=
